@@ -49,12 +49,26 @@ def groupRuns : List Script → List (Text.Bytes × List Script)
     | (g, ts) :: more => if g == t.info.group then (g, t :: ts) :: more else (t.info.group, [t]) :: (g, ts) :: more
     | [] => [(t.info.group, [t])]
 
-/-- first failure a scripted test reports (nothing after a `failx` runs) -/
-def firstFailure : List Act → Option (Text.Bytes × Nat × Text.Bytes)
+/-- first failure of the body as (file, line, message); nothing after a `failx` runs; a failure
+    without location is located at the test, one without message says "no message" -/
+def firstBodyFailure (t : TestInfo) : List Act → Option (Text.Bytes × Nat × Text.Bytes)
   | [] => none
   | .fail f l m :: _ => some (f, l, m)
   | .failExit f l m :: _ => some (f, l, m)
-  | _ :: as => firstFailure as
+  | .failMsg m :: _ => some (t.file, t.line, m)
+  | .failLoc f l :: _ => some (f, l, lit "no message")
+  | _ :: as => firstBodyFailure t as
+
+def firstPluginFailure (t : TestInfo) : List Act → Option (Text.Bytes × Nat × Text.Bytes)
+  | [] => none
+  | .postFail m :: _ => some (t.file, t.line, m)
+  | _ :: as => firstPluginFailure t as
+
+/-- first failure a scripted test reports: from its body, else from the plugin's post-test action -/
+def firstFailure (t : TestInfo) (acts : List Act) : Option (Text.Bytes × Nat × Text.Bytes) :=
+  match firstBodyFailure t acts with
+  | some x => some x
+  | none => firstPluginFailure t acts
 
 /-- text a scripted test prints (nothing after a `failx` runs) -/
 def printedBy : List Act → Text.Bytes
@@ -74,7 +88,7 @@ def checkCase (pkg group : Text.Bytes) (t : Script) (c : Case) : Option String :
      else if !c.skipped then some s!"ignored test {showB t.info.name} has no skipped marker" else none)
   else if c.skipped ∧ c.failure.isNone then some s!"test {showB t.info.name} is not ignored but marked skipped"
   else
-    match firstFailure t.acts, c.failure with
+    match firstFailure t.info t.acts, c.failure with
     | none, none => none
     | none, some m => some s!"test {showB t.info.name} did not fail but has a failure element {showB m}"
     | some _, none => some s!"failed test {showB t.info.name} has no failure element"
@@ -103,7 +117,7 @@ def checkFile (pkg : Text.Bytes) (flt : Option Filter) (g : Text.Bytes) (ts : Li
     else if suite.name ≠ g then some s!"suite name {showB suite.name}, original {showB g}"
     else if suite.tests ≠ (running.length : Int) then some s!"suite says tests={suite.tests}, the group ran {running.length}"
     else
-      let failed := (running.filter fun t => t.info.willRun && (firstFailure t.acts).isSome).length
+      let failed := (running.filter fun t => t.info.willRun && (firstFailure t.info t.acts).isSome).length
       if suite.failures ≠ (failed : Int) then some s!"suite says failures={suite.failures}, {failed} tests of the group failed"
       else
         match checkCases pkg g running suite.cases with
